@@ -58,6 +58,26 @@ template<unsigned R, unsigned C, unsigned P, unsigned Q> static void shape_direc
   for (unsigned i=0; i<R; i++) for (unsigned j=0; j<C; j++) for (unsigned k=0; k<P; k++) for (unsigned l=0; l<Q; l++) {
     snprintf (what, 200, "%s: Kronecker product (%ux%u)x(%ux%u) element", tag, R, C, P, Q); expect (what, d[i*P+k][j*Q+l], a[i][j] * b[k][l], 1e-12); }
 }
+template<unsigned U, unsigned L, unsigned B, unsigned R> static void shape_partition (const char* tag)
+{
+  Matrix<U+B,L+R,double> a = rmat<U+B,L+R> (); Matrix<U,L,double> ul; Matrix<U,R,double> ur; Matrix<B,L,double> bl; Matrix<B,R,double> br; char what[200];
+  partition<U,L,B,R> (a, ul, ur, bl, br);
+  snprintf (what, 200, "%s: partition of a %ux%u matrix at (%u,%u): each block is the corresponding submatrix", tag, U+B, L+R, U, L);
+  for (unsigned i=0; i<U+B; i++) for (unsigned j=0; j<L+R; j++) { double blk = i < U ? (j < L ? ul[i][j] : ur[i][j-L]) : (j < L ? bl[i-U][j] : br[i-U][j-L]); expect_true (what, blk == a[i][j]); }
+  Matrix<U+B,L+R,double> r; compose<U,L,B,R> (r, ul, ur, bl, br);
+  snprintf (what, 200, "%s: compose (partition (A)) = A for a %ux%u matrix split at (%u,%u)", tag, U+B, L+R, U, L);
+  for (unsigned i=0; i<U+B; i++) for (unsigned j=0; j<L+R; j++) expect_true (what, r[i][j] == a[i][j]);
+}
+template<unsigned M> static void shape_partition_sym (const char* tag)
+{
+  Matrix<M+1,M+1,double> a = rmat<M+1,M+1> (); for (unsigned i=0; i<M+1; i++) for (unsigned j=0; j<i; j++) a[i][j] = a[j][i];
+  double var; Vector<M,double> cv; Matrix<M,M,double> cm; partition (a, var, cv, cm); char what[200];
+  snprintf (what, 200, "%s: symmetric partition of a %ux%u matrix", tag, M+1, M+1);
+  expect_true (what, var == a[0][0]); for (unsigned j=0; j<M; j++) { expect_true (what, cv[j] == a[0][j+1]); for (unsigned i=0; i<M; i++) expect_true (what, cm[i][j] == a[i+1][j+1]); }
+  Matrix<M+1,M+1,double> r; compose (r, var, cv, cm);
+  snprintf (what, 200, "%s: symmetric compose (partition (A)) = A for a %ux%u matrix", tag, M+1, M+1);
+  for (unsigned i=0; i<M+1; i++) for (unsigned j=0; j<M+1; j++) expect_true (what, r[i][j] == a[i][j]);
+}
 #endif
 
 int main (int argc, char** argv)
@@ -166,6 +186,8 @@ int main (int argc, char** argv)
   fn ("shapes_and_scales_plain", [] { lcg13 = 4242;
     shape_product<2,3,2> ("small"); shape_product<4,5,6> ("rect"); shape_product<6,6,6> ("6x6"); shape_product<1,6,1> ("row-col"); shape_product<6,1,6> ("col-row"); shape_product<5,2,5> ("thin"); shape_product<3,6,4> ("wide");
     for (int pat=0; pat<4; pat++) { shape_inverse<2> ("inverse", pat); shape_inverse<3> ("inverse", pat); shape_inverse<4> ("inverse", pat); shape_inverse<5> ("inverse", pat); shape_inverse<6> ("inverse", pat); }
+    shape_partition<2,3,4,3> ("blocks"); shape_partition<1,1,5,5> ("blocks"); shape_partition<5,5,1,1> ("blocks"); shape_partition<3,1,2,4> ("blocks"); shape_partition<1,4,3,1> ("blocks"); shape_partition<2,2,2,2> ("blocks");
+    shape_partition_sym<1> ("blocks"); shape_partition_sym<3> ("blocks"); shape_partition_sym<5> ("blocks");
     shape_direct<2,3,3,2> ("kron"); shape_direct<3,2,2,3> ("kron"); shape_direct<1,6,6,1> ("kron"); shape_direct<2,2,3,3> ("kron");
     { // single precision and complex elements at small and large magnitudes
       for (float sc : { 1e-25f, 1e-15f, 1.0f, 1e15f }) { Matrix<2,2,float> a; a[0][0] = sc; a[0][1] = sc; a[1][0] = sc; a[1][1] = 0; Matrix<2,2,float> ai = inv (a), p = ai * a; char what[160];
